@@ -563,6 +563,13 @@ func (s *Session) sendError(err error) (e error) {
 
 	se := stream.Error{}
 	if errors.As(err, &se) {
+		if se.Err == "" {
+			// A stream error that we received without one of the defined conditions
+			// (only an application specific one, or nothing at all) has no name to
+			// marshal; RFC 6120 §4.9.3.21 says to use undefined-condition for it.
+			// What Serve returns is still the error as it was received.
+			se.Err = stream.UndefinedCondition.Err
+		}
 		if _, e = se.WriteXML(s.out.e); e != nil {
 			return e
 		}
